@@ -1,5 +1,188 @@
 //! Translator targets owned by property C03.
+//!
+//! `glueloops` → `Generated/GlueLoops.lean`: the per-field loops of the generated
+//! drop and clone functions (`src/lir/lower/drops.rs`, `src/lir/lower/clones.rs`),
+//! statement by statement in source order, as values of `RotoV.Glue.Step`:
+//!
+//! ```text
+//! let Some(layout) = self.layout_of(ty) else { continue; };          layoutOrSkip
+//! let new_offset = builder.add(&layout);                             add
+//! if !self.needs_drop(ty) { continue; }                              skipUnlessNeedsDrop
+//! if !self.needs_clone(ty) { continue; }                             skipUnlessNeedsDrop   (same predicate)
+//! let x = self.offset(<base>.clone(), new_offset as u32);            ptr x <base>
+//! let x = Location::Pointer { base: <base>.clone(), offset: new_offset };   ptr x <base>
+//! self.call_drop_of(x.into(), ty);                                   callDrop x
+//! self.call_clone_of(a, b, ty);                                      callClone a b
+//! ```
+//! plus, for the enum functions, what is added to the fresh `LayoutBuilder` of a
+//! variant before its fields (`builder.add(&Layout::of::<u8>())` → `addTag`).
+//! `<base>` is `root_var` (the value operated on) or `return_var` (the clone's
+//! destination). Any other statement in these loops is an extraction failure:
+//! the Lean model would not know what it does.
 #[allow(unused_imports)]
 use super::{Gen, Target};
+use crate::find;
+use quote::ToTokens;
+use std::path::Path;
+use syn::visit::Visit;
 
-pub const TARGETS: &[Target] = &[];
+pub const TARGETS: &[Target] = &[("glueloops", "GlueLoops", glueloops as Gen)];
+
+fn norm<T: ToTokens>(t: &T) -> String {
+    t.to_token_stream().to_string().replace(' ', "")
+}
+
+struct Loops(Vec<syn::ExprForLoop>);
+impl<'ast> Visit<'ast> for Loops {
+    fn visit_expr_for_loop(&mut self, l: &'ast syn::ExprForLoop) {
+        self.0.push(l.clone());
+        syn::visit::visit_expr_for_loop(self, l);
+    }
+}
+
+fn base(s: &str) -> Result<&'static str, String> {
+    match s {
+        "root_var" => Ok(".root"),
+        "return_var" => Ok(".ret"),
+        o => Err(format!("unknown base variable `{o}`")),
+    }
+}
+
+fn lvar(s: &str) -> Result<&'static str, String> {
+    match s {
+        "var" => Ok(".var"),
+        "to" => Ok(".to"),
+        "from" => Ok(".from"),
+        o => Err(format!("unknown local `{o}`")),
+    }
+}
+
+/// one statement of a field loop → a `Step`
+fn step(st: &syn::Stmt) -> Result<String, String> {
+    let s = norm(st);
+    let ty_ok = |t: &str| t == "ty" || t == "*ty";
+    if s == "letSome(layout)=self.layout_of(ty)else{continue;};" {
+        return Ok(".layoutOrSkip".into());
+    }
+    if s == "letnew_offset=builder.add(&layout);" {
+        return Ok(".add".into());
+    }
+    for pred in ["needs_drop", "needs_clone"] {
+        if let Some(rest) = s.strip_prefix(&format!("if!self.{pred}(")) {
+            if let Some(t) = rest.strip_suffix("){continue;}") {
+                if ty_ok(t) {
+                    return Ok(".skipUnlessNeedsDrop".into());
+                }
+            }
+        }
+    }
+    if let Some(rest) = s.strip_prefix("let") {
+        if let Some((x, rhs)) = rest.split_once('=') {
+            if let Some(r) = rhs.strip_prefix("self.offset(") {
+                if let Some(b) = r.strip_suffix(".clone(),new_offsetasu32);") {
+                    return Ok(format!(".ptr {} {}", lvar(x)?, base(b)?));
+                }
+            }
+            if let Some(r) = rhs.strip_prefix("Location::Pointer{base:") {
+                if let Some(b) = r.strip_suffix(".clone(),offset:new_offset,};") {
+                    return Ok(format!(".ptr {} {}", lvar(x)?, base(b)?));
+                }
+            }
+        }
+    }
+    if let Some(r) = s.strip_prefix("self.call_drop_of(") {
+        if let Some(a) = r.strip_suffix(");") {
+            if let Some((x, t)) = a.split_once(".into(),") {
+                if ty_ok(t) {
+                    return Ok(format!(".callDrop {}", lvar(x)?));
+                }
+            }
+        }
+    }
+    if let Some(r) = s.strip_prefix("self.call_clone_of(") {
+        if let Some(a) = r.strip_suffix(");") {
+            let parts: Vec<&str> = a.split(',').collect();
+            if parts.len() == 3 && ty_ok(parts[2]) {
+                return Ok(format!(".callClone {} {}", lvar(parts[0])?, lvar(parts[1])?));
+            }
+        }
+    }
+    Err(format!("statement outside the translated subset: {}", st.to_token_stream()))
+}
+
+/// the field loop of `fname` (the innermost `for` whose body has no further `for`)
+/// and, for enum functions, the statements of the enclosing loop body between
+/// `let mut builder = LayoutBuilder::new();` and the field loop
+fn field_loop(file: &syn::File, fname: &str, is_enum: bool) -> Result<(Vec<String>, Vec<String>), String> {
+    let f = find::func(file, fname, None)?;
+    let mut ls = Loops(vec![]);
+    ls.visit_block(&f.block);
+    let expect = if is_enum { 2 } else { 1 };
+    if ls.0.len() != expect {
+        return Err(format!("{fname}: expected {expect} `for` loop(s), found {}", ls.0.len()));
+    }
+    let inner = ls.0.last().unwrap().clone();
+    let head = format!("for {} in {}", norm(&inner.pat), norm(&inner.expr));
+    let want = if is_enum { "for (ty,layout) in layouts" } else { "for &(_,ty) in fields" };
+    if head != want {
+        return Err(format!("{fname}: field loop is `{head}`, expected `{want}`"));
+    }
+    let mut steps = vec![];
+    for st in &inner.body.stmts {
+        steps.push(step(st).map_err(|e| format!("{fname}: {e}"))?);
+    }
+    let mut pre = vec![];
+    if is_enum {
+        let outer = &ls.0[0];
+        let mut seen_builder = false;
+        let mut seen_loop = false;
+        for st in &outer.body.stmts {
+            let s = norm(st);
+            if s == "letmutbuilder=LayoutBuilder::new();" {
+                seen_builder = true;
+                continue;
+            }
+            if s.starts_with("for(ty,layout)inlayouts") {
+                seen_loop = true;
+                break;
+            }
+            if seen_builder {
+                if s == "builder.add(&Layout::of::<u8>());" {
+                    pre.push(".addTag".to_string());
+                } else {
+                    return Err(format!("{fname}: statement between the builder and the field loop outside the subset: {}", st.to_token_stream()));
+                }
+            }
+        }
+        if !seen_builder || !seen_loop {
+            return Err(format!("{fname}: `let mut builder = LayoutBuilder::new();` followed by the field loop not found"));
+        }
+    } else {
+        // the record functions create the builder right before the loop
+        let body = norm(&f.block);
+        if !body.contains("letmutbuilder=LayoutBuilder::new();for&(_,ty)infields") {
+            return Err(format!("{fname}: the builder is not created right before the field loop"));
+        }
+    }
+    Ok((pre, steps))
+}
+
+fn glueloops(repo: &Path) -> Result<String, String> {
+    let drops = find::parse(repo, "src/lir/lower/drops.rs")?;
+    let clones = find::parse(repo, "src/lir/lower/clones.rs")?;
+    let (_, dr) = field_loop(&drops, "generate_drop_body_record", false)?;
+    let (dpre, de) = field_loop(&drops, "generate_drop_body_enum", true)?;
+    let (_, cr) = field_loop(&clones, "generate_clone_body_record", false)?;
+    let (cpre, ce) = field_loop(&clones, "generate_clone_body_enum", true)?;
+    let list = |v: &[String]| format!("[{}]", v.join(", "));
+    let mut out = String::new();
+    out.push_str("/- GENERATED by /verif/extract from src/lir/lower/drops.rs, src/lir/lower/clones.rs (field loops of the generated drop / clone functions) — do not edit. -/\nimport RotoV.Model.Glue\nnamespace RotoV.Gen.GlueLoops\nopen RotoV.Glue\n\n");
+    out.push_str(&format!("/-- `generate_drop_body_record`: body of `for &(_, ty) in fields` -/\ndef dropRecord : List Step := {}\n\n", list(&dr)));
+    out.push_str(&format!("/-- `generate_drop_body_enum`: added to a variant's fresh builder before its fields -/\ndef dropEnumPre : List Pre := {}\n\n", list(&dpre)));
+    out.push_str(&format!("/-- `generate_drop_body_enum`: body of `for (ty, layout) in layouts` -/\ndef dropEnum : List Step := {}\n\n", list(&de)));
+    out.push_str(&format!("/-- `generate_clone_body_record`: body of `for &(_, ty) in fields` -/\ndef cloneRecord : List Step := {}\n\n", list(&cr)));
+    out.push_str(&format!("def cloneEnumPre : List Pre := {}\n\n", list(&cpre)));
+    out.push_str(&format!("/-- `generate_clone_body_enum`: body of `for (ty, layout) in layouts` -/\ndef cloneEnum : List Step := {}\n\n", list(&ce)));
+    out.push_str("/-- the four loops as the current source has them -/\ndef prog : Prog :=\n  { dropRecord := dropRecord, dropEnumPre := dropEnumPre, dropEnum := dropEnum,\n    cloneRecord := cloneRecord, cloneEnumPre := cloneEnumPre, cloneEnum := cloneEnum }\n\nend RotoV.Gen.GlueLoops\n");
+    Ok(out)
+}
